@@ -57,8 +57,8 @@ const OPT_NAMES: [&str; 5] = [
     "UseProvided(None)",
     "UseProvided(Some)",
 ];
-const HFIELD_NAMES: [&str; 12] = ["all-ones", "len", "len-1", "len+1", "0", "2^63", "random", "all-ones with one bit cleared", "all-ones with one byte replaced", "low 32 bits all ones", "high 32 bits all ones", "len + k*2^32"];
-const XSIZE_NAMES: [&str; 13] = ["len", "len-1", "len+1", "0", "mid-stream", "2^64-1", "2^64-2", "2^63", "2^32", "len+2^32", "2^64-1 with one bit cleared", "low 32 bits all ones", "high 32 bits all ones"];
+const HFIELD_NAMES: [&str; 13] = ["all-ones", "len", "len-1", "len+1", "0", "2^63", "random", "all-ones with one bit cleared", "all-ones with one byte replaced", "low 32 bits all ones", "high 32 bits all ones", "len + k*2^32", "len + the end marker's length field (len+2 without marker)"];
+const XSIZE_NAMES: [&str; 14] = ["len", "len-1", "len+1", "0", "mid-stream", "2^64-1", "2^64-2", "2^63", "2^32", "len+2^32", "2^64-1 with one bit cleared", "low 32 bits all ones", "high 32 bits all ones", "len + the end marker's length field (len+2 without marker)"];
 const OUTCOME_NAMES: [&str; 8] = [
     "ok:size-reached",
     "ok:marker",
@@ -178,7 +178,9 @@ pub fn build(rng: &mut Rng, tier: Tier) -> Option<Built> {
     if marker {
         full.push(Sym::Eos);
     }
-    let (payload, table, _) = match crate::refmodel::lzma::encode_program(&full, props) {
+    // the end marker is a match with distance 2^32 - 1 and ANY length: vary its length field
+    let eos_len: u32 = if rng.chance(1, 2) { 2 } else { *rng.pick(&[3u32, 4, 9, 10, 17, 18, 100, 272, 273]) };
+    let (payload, table, _) = match crate::refmodel::lzma::encode_program_eos_len(&full, props, eos_len) {
         Ok(x) => x,
         Err(_) => return None,
     };
@@ -219,6 +221,7 @@ pub fn build(rng: &mut Rng, tier: Tier) -> Option<Built> {
         9 => (rng.below(0xFFFF_FFFF) << 32) | 0xFFFF_FFFF,
         10 => 0xFFFF_FFFF_0000_0000 | rng.below(0xFFFF_FFFF),
         11 => true_len + (rng.range(1, 0xFFFF_FFFF) << 32),
+        12 => true_len + eos_len as u64,
         _ => rng.next(),
     };
     let opt_idx = rng.usize_below(OPT_NAMES.len());
@@ -239,6 +242,7 @@ pub fn build(rng: &mut Rng, tier: Tier) -> Option<Built> {
             10 => u64::MAX ^ (1u64 << rng.below(64)),
             11 => (rng.below(0xFFFF_FFFF) << 32) | 0xFFFF_FFFF,
             12 => 0xFFFF_FFFF_0000_0000 | rng.below(0xFFFF_FFFF),
+            13 => true_len + eos_len as u64,
             _ => {
                 // a symbol boundary or a point inside a symbol, somewhere in the middle
                 if table.is_empty() {
@@ -566,7 +570,7 @@ fn floors(_: Tier, cov: &Cov) -> Vec<String> {
     if cov.group_nonzero("expected_outcome") < 7 {
         m.push(format!("only {}/7 outcome classes produced", cov.group_nonzero("expected_outcome")));
     }
-    if cov.group_nonzero("option") < 5 || cov.group_nonzero("header_field") < 12 || cov.group_nonzero("provided_size") < 13 {
+    if cov.group_nonzero("option") < 5 || cov.group_nonzero("header_field") < HFIELD_NAMES.len() || cov.group_nonzero("provided_size") < XSIZE_NAMES.len() {
         m.push("option/header-field/provided-size table not fully covered".into());
     }
     m
@@ -576,7 +580,7 @@ pub fn monitor(tier: Tier) -> Monitor {
     Monitor {
         id: "C08",
         level: "exploration",
-        rule: "cases = table cells (5 option shapes x 12 header-field values (incl. values next to the all-ones sentinel: one bit cleared, one byte replaced, only the low / only the high 32 bits all ones, len + k*2^32) x 13 provided sizes incl. 2^64-1, 2^64-2, 2^63, 2^32, len+2^32 and the same near-sentinel shapes) over generated streams (with/without end marker, marker early, long final match, trailing bytes, truncation), each decided by the reference decoder run with the size in effect, executed through lzma_decompress_with_options and through Stream (whole and in random pieces); plus size-0 streams checking the 13/13/5 header bytes under all reader kinds; non-trivial = lzma-rs decoded >= 1 symbol (hook) or the stream is the empty stream; distinct by hash of (file, option, size in effect)",
+        rule: "cases = table cells (5 option shapes x 13 header-field values (incl. values next to the all-ones sentinel: one bit cleared, one byte replaced, only the low / only the high 32 bits all ones, len + k*2^32, len + the end marker's length field) x 14 provided sizes incl. 2^64-1, 2^64-2, 2^63, 2^32, len+2^32 and the same near-sentinel shapes) over generated streams (with/without end marker, the marker's own length field 2..273, marker early, long final match, trailing bytes, truncation), each decided by the reference decoder run with the size in effect, executed through lzma_decompress_with_options and through Stream (whole and in random pieces); plus size-0 streams checking the 13/13/5 header bytes under all reader kinds; non-trivial = lzma-rs decoded >= 1 symbol (hook) or the stream is the empty stream; distinct by hash of (file, option, size in effect)",
         assumptions: vec![
             "oracle = reference decoder (self-checked against liblzma) applying the rules of the statement".into(),
             "documented leniency, not alarmed on: with no size in effect lzma-rs also accepts input ending at a symbol boundary with range-coder code 0 and no marker (either verdict accepted there; bytes must still be exact)".into(),
